@@ -37,9 +37,11 @@ def pickStar (cur : Str) : List Str → Str
   | [] => cur
   | code :: rest => pickStar (if hasStar code then code else cur) rest
 
-/-- The candidate test of the loop over the supported codes. `repaired = false` is the code as it is
-(`supportedCultureCode.startswith(culture_prefix)`), `repaired = true` the proposed repair
-(`supportedCultureCode.split('-')[0] == culture_prefix`). -/
+/-- The candidate test of the loop over the supported codes. `repaired = true` is the code as it is
+(`supportedCultureCode.split('-')[0] == culture_prefix`, since the fix "map_to_nearest_language compares the
+language tag instead of a string prefix"); `repaired = false` is the code before that fix
+(`supportedCultureCode.startswith(culture_prefix)`), kept as the regression variant: the correspondence decides
+on every run which of the two the working tree follows. -/
 def isCandidate (repaired : Bool) (p s : Str) : Bool :=
   if repaired then beforeDash s == p else startsWith s p
 
